@@ -348,10 +348,24 @@ func envPickler(x starlark.Value) (module, name string, args starlark.Tuple, err
 		return "dawn", "FunctionCode", starlark.Tuple{module, globals, starlark.Bytes(x.Bytecode())}, nil
 	case *starlark.Function:
 		defaults, freevars := x.Env()
-		return "dawn", "Function", starlark.Tuple{defaults, freevars, x.Code()}, nil
+		return "dawn", "Function", starlark.Tuple{optionalDefaults(defaults), freevars, x.Code()}, nil
 	default:
 		return "", "", nil, pickle.ErrCannotPickle
 	}
+}
+
+// optionalDefaults drops the entries of mandatory keyword-only parameters from a function's
+// association list of default parameter values. Such a parameter has no default value; the
+// interpreter marks its slot with a placeholder that cannot be pickled.
+func optionalDefaults(defaults starlark.Tuple) starlark.Tuple {
+	optional := make(starlark.Tuple, 0, len(defaults))
+	for _, d := range defaults {
+		if pair, ok := d.(starlark.Tuple); ok && len(pair) == 2 && pair[1].Type() == "mandatory" {
+			continue
+		}
+		optional = append(optional, d)
+	}
+	return optional
 }
 
 // envUnpickler provides support for unpickling functions and modules.
